@@ -88,3 +88,43 @@ func H_C04_setfloat() {
 	vAssert("C10.same", same)
 	vReach("end")
 }
+
+// H_C04_tofloat: Float64 / Float32 / Float of zeros and infinities (either
+// sign, any stale state): the value is the same special value with the same
+// sign, accuracy Exact, x unchanged. (The finite case is C15's numeric
+// statement and is not claimed.)
+func H_C04_tofloat() {
+	fx, which := vCfg("fx"), vCfg("which")
+	x := vDec("x", fx, 1, vCfgOr("capx", 1), vCfgOr("px", 0))
+	xs := snap(x)
+	var f float64
+	var acc Accuracy
+	var isInf, sign bool
+	k := vCatch(func() {
+		switch which {
+		case 0:
+			f, acc = x.Float64()
+			isInf, sign = math.IsInf(f, 0), math.Signbit(f)
+		case 1:
+			var g float32
+			g, acc = x.Float32()
+			f = float64(g)
+			isInf, sign = math.IsInf(f, 0), math.Signbit(f)
+		case 2:
+			b := x.Float(nil)
+			isInf, sign = b.IsInf(), b.Signbit()
+			acc = Accuracy(b.Acc())
+			if !isInf {
+				f, _ = b.Float64()
+			}
+		}
+	})
+	vAssert("C04.nopanic", k == 0)
+	if k != 0 {
+		return
+	}
+	vAssert("C04.special", vAnd(sign == x.neg, vAnd(isInf == (fx == fInf), vOr(isInf, f == 0))))
+	vAssert("C02.acc", acc == Exact)
+	vAssert("C09.operand", unchanged(x, xs))
+	vReach("end")
+}
